@@ -122,6 +122,62 @@ def _generator_shape(fn: ast.FunctionDef):
     return body[:-1], loop, yields[0].value
 
 
+def expand_yields(fn: ast.FunctionDef, target: ast.expr, body: List[ast.stmt], sub: "Optional[_Subst]" = None) -> Optional[List[ast.stmt]]:
+    """The body of generator `fn` with every statement `yield E` replaced by `target = E; <body>`: what `for target in fn(..):
+    body` executes, provided the generator never returns early and the consumer body has no break/continue/return (each of
+    which would have to stop or resume the generator)."""
+    if fn.decorator_list:
+        return None
+    for n in ast.walk(fn):
+        if isinstance(n, (ast.Return, ast.Await, ast.Global, ast.Nonlocal)):
+            return None
+        if isinstance(n, (ast.FunctionDef, ast.AsyncFunctionDef, ast.ClassDef, ast.Lambda)) and n is not fn:
+            return None
+    for b in body:
+        for n in ast.walk(b):
+            if isinstance(n, (ast.Break, ast.Continue, ast.Return)):
+                return None
+    yields = [n for n in ast.walk(fn) if isinstance(n, (ast.Yield, ast.YieldFrom))]
+    if not yields or any(y.value is None for y in yields):
+        return None
+    gen_body = [copy.deepcopy(st) for st in _body_wo_doc(fn)]
+    if sub is not None:
+        gen_body = [sub.visit(st) for st in gen_body]
+    ok = [True]
+
+    class Y(ast.NodeTransformer):
+        def visit_Expr(self, node):
+            if isinstance(node.value, ast.Yield):
+                bind = ast.Assign(targets=[copy.deepcopy(target)], value=node.value.value)
+                return [ast.copy_location(bind, node)] + [copy.deepcopy(b) for b in body]
+            if isinstance(node.value, ast.YieldFrom):
+                # yield from X   ==   for T in X: yield T
+                tgt = copy.deepcopy(target)
+                for n in ast.walk(tgt):
+                    if isinstance(n, ast.Name):
+                        n.ctx = ast.Store()
+                loop = ast.For(target=tgt, iter=node.value.value, body=[copy.deepcopy(b) for b in body], orelse=[], type_comment=None)
+                return [ast.copy_location(loop, node)]
+            if any(isinstance(x, (ast.Yield, ast.YieldFrom)) for x in ast.walk(node)):
+                ok[0] = False
+            return node
+
+        def generic_visit(self, node):
+            if not isinstance(node, ast.Expr) and not isinstance(node, ast.stmt) is False:
+                pass
+            return super().generic_visit(node)
+    out = []
+    for st in gen_body:
+        r = Y().visit(st)
+        out.extend(r if isinstance(r, list) else [r])
+    # a yield used as an expression elsewhere (x = yield ...) is not supported
+    if not ok[0] or any(isinstance(x, (ast.Yield, ast.YieldFrom)) for st in out for x in ast.walk(st)):
+        return None
+    for st in out:
+        ast.fix_missing_locations(st)
+    return out
+
+
 def _body_wo_doc(fn: ast.FunctionDef) -> List[ast.stmt]:
     b = fn.body
     if b and isinstance(b[0], ast.Expr) and isinstance(b[0].value, ast.Constant) and isinstance(b[0].value.value, str):
@@ -195,6 +251,7 @@ def _contains_return(stmts: List[ast.stmt]) -> bool:
 class _Inliner:
     generators: Dict[str, ast.FunctionDef] = {}
     method_generators: Dict[str, ast.FunctionDef] = {}
+    factories: Dict[str, ast.FunctionDef] = {}
 
     def __init__(self, helpers: Dict[str, ast.FunctionDef], method_helpers: Dict[str, ast.FunctionDef]):
         self.helpers = helpers
@@ -400,6 +457,35 @@ class _Inliner:
         return out
 
     # ------------------------------------------------------------------
+    def apply_closure_factory(self, c: ast.Call) -> Optional[ast.expr]:
+        """factory(a...)(b...)  with  def factory(p...): def g(q...): return E; return g   ->   E[p:=a, q:=b]"""
+        if not (isinstance(c.func, ast.Call) and isinstance(c.func.func, ast.Name) and c.func.func.id in self.factories):
+            return None
+        fac = self.factories[c.func.func.id]
+        body = _body_wo_doc(fac)
+        if not (len(body) == 2 and isinstance(body[0], ast.FunctionDef) and isinstance(body[1], ast.Return)
+                and isinstance(body[1].value, ast.Name) and body[1].value.id == body[0].name and not body[0].decorator_list):
+            return None
+        inner = body[0]
+        expr = _is_single_return(inner)
+        if expr is None:
+            return None
+        outer_params = [a.arg for a in fac.args.args]
+        inner_params = [a.arg for a in inner.args.args]
+        oc, ic = c.func, c
+        if oc.keywords or ic.keywords or len(oc.args) != len(outer_params) or len(ic.args) != len(inner_params) \
+                or any(isinstance(a, ast.Starred) for a in list(oc.args) + list(ic.args)):
+            return None
+        mapping = dict(zip(outer_params, oc.args))
+        mapping.update(zip(inner_params, ic.args))
+        # every parameter used at most once unless its argument is simple
+        for pname, arg in mapping.items():
+            uses = sum(1 for n in ast.walk(expr) if isinstance(n, ast.Name) and n.id == pname)
+            if uses > 1 and not _simple_arg(arg):
+                return None
+        self.used.add(fac.name)
+        return ast.copy_location(_Subst(mapping, {}).visit(copy.deepcopy(expr)), c)
+
     def inline_expr_calls(self, node: ast.AST) -> ast.AST:
         """Replace calls of single-return helpers inside expressions."""
         inl = self
@@ -407,6 +493,9 @@ class _Inliner:
         class T(ast.NodeTransformer):
             def visit_Call(self, c):
                 self.generic_visit(c)
+                folded = inl.apply_closure_factory(c)
+                if folded is not None:
+                    return folded
                 tgt = inl.callee(c)
                 if tgt is None:
                     return c
@@ -493,7 +582,20 @@ class _Inliner:
             return None
         shape = _generator_shape(fn)
         if shape is None:
-            return None
+            # general form: every `yield E` becomes `T = E; BODY`
+            b = self.bind(fn, s.iter, is_m)
+            if b is None:
+                return None
+            prelude, mapping, rename, tag = b
+            stmts = expand_yields(fn, s.target, s.body, _Subst(mapping, rename))
+            if stmts is None:
+                return None
+            out = list(prelude) + stmts
+            for st in out:
+                ast.copy_location(st, s)
+                ast.fix_missing_locations(st)
+            self.used.add(fn.name)
+            return out
         b = self.bind(fn, s.iter, is_m)
         if b is None:
             return None
@@ -714,6 +816,20 @@ def _literal_node(e: ast.expr) -> bool:
     return False
 
 
+def _tableish_node(e: ast.expr, depth: int = 0) -> bool:
+    """Cell of a module-level table: a literal, a name, or a call of a name with such arguments (a class, or a closure factory
+    applied to a class) - evaluating it again where it is used gives the same object for the purposes of the analysis."""
+    if _literal_node(e):
+        return True
+    if isinstance(e, ast.Name):
+        return True
+    if isinstance(e, (ast.Tuple, ast.List)):
+        return all(_tableish_node(x, depth) for x in e.elts)
+    if isinstance(e, ast.Call) and isinstance(e.func, ast.Name) and depth < 2 and not e.keywords:
+        return all(_tableish_node(a, depth + 1) for a in e.args)
+    return False
+
+
 def _module_tables(tree: ast.Module) -> Dict[str, ast.expr]:
     """Module-level names bound exactly once to a literal tuple/list (a table)."""
     count: Dict[str, int] = {}
@@ -731,7 +847,8 @@ def _module_tables(tree: ast.Module) -> Dict[str, ast.expr]:
         if isinstance(n, ast.Global):
             for g in n.names:
                 count[g] = count.get(g, 0) + 1
-    return {k: v for k, v in val.items() if count[k] == 1 and isinstance(v, (ast.Tuple, ast.List)) and _literal_node(v) and len(v.elts) <= 40}
+    return {k: v for k, v in val.items() if count[k] == 1 and isinstance(v, (ast.Tuple, ast.List)) and len(v.elts) <= 40
+            and (_literal_node(v) or (all(isinstance(r, (ast.Tuple, ast.List)) for r in v.elts) and _tableish_node(v)))}
 
 
 def _expand_table_comprehensions(tree: ast.Module, tables: Dict[str, ast.expr]) -> None:
@@ -742,24 +859,35 @@ def _expand_table_comprehensions(tree: ast.Module, tables: Dict[str, ast.expr]) 
             if len(comp.generators) != 1:
                 return None
             g = comp.generators[0]
-            if g.ifs or g.is_async or not isinstance(g.target, ast.Name):
+            if g.ifs or g.is_async:
+                return None
+            if isinstance(g.target, ast.Name):
+                names = [g.target.id]
+            elif isinstance(g.target, ast.Tuple) and all(isinstance(e, ast.Name) for e in g.target.elts):
+                names = [e.id for e in g.target.elts]
+            else:
                 return None
             it = g.iter
+            rows = None
             if isinstance(it, ast.Name) and it.id in tables:
-                return g.target.id, tables[it.id].elts
-            if isinstance(it, (ast.Tuple, ast.List)) and _literal_node(it) and len(it.elts) <= 40:
-                return g.target.id, it.elts
-            return None
+                rows = tables[it.id].elts
+            elif isinstance(it, (ast.Tuple, ast.List)) and _literal_node(it) and len(it.elts) <= 40:
+                rows = it.elts
+            if rows is None:
+                return None
+            if len(names) > 1 and not all(isinstance(r, (ast.Tuple, ast.List)) and len(r.elts) == len(names) for r in rows):
+                return None
+            return names, rows
 
         def visit_DictComp(self, node):
             self.generic_visit(node)
             r = self._rows(node)
             if r is None:
                 return node
-            var, rows = r
+            names, rows = r
             keys, vals = [], []
             for row in rows:
-                sub = _Subst({var: row}, {})
+                sub = _Subst({names[0]: row} if len(names) == 1 else dict(zip(names, row.elts)), {})
                 keys.append(self.visit(sub.visit(copy.deepcopy(node.key))))
                 vals.append(self.visit(sub.visit(copy.deepcopy(node.value))))
             return ast.copy_location(ast.Dict(keys=keys, values=vals), node)
@@ -769,8 +897,9 @@ def _expand_table_comprehensions(tree: ast.Module, tables: Dict[str, ast.expr]) 
             r = self._rows(node)
             if r is None:
                 return node
-            var, rows = r
-            elts = [self.visit(_Subst({var: row}, {}).visit(copy.deepcopy(node.elt))) for row in rows]
+            names, rows = r
+            elts = [self.visit(_Subst({names[0]: row} if len(names) == 1 else dict(zip(names, row.elts)), {}).visit(copy.deepcopy(node.elt)))
+                    for row in rows]
             return ast.copy_location(ast.List(elts=elts, ctx=ast.Load()), node)
 
         def visit_JoinedStr(self, node):
@@ -860,6 +989,118 @@ def _unroll_table_loops(fn: ast.FunctionDef, tables: Dict[str, ast.expr]) -> boo
                         continue
                 i += 1
     return changed
+
+
+def _tag_fusion(fn: ast.FunctionDef) -> None:
+    """k = TAG_1 if/elif/else chain (one assignment of a distinct constant tag per arm, nothing else), k only ever compared with
+    tags afterwards: every `k is TAG_i` / `k == TAG_i` is replaced by the condition under which arm i is taken."""
+    for owner in ast.walk(fn):
+        for field in ("body", "orelse", "finalbody"):
+            block = getattr(owner, field, None)
+            if not isinstance(block, list):
+                continue
+            for st in block:
+                if not isinstance(st, ast.If):
+                    continue
+                arms = []       # (tests so far negated, test or None, tag text)
+                cur = st
+                prev: List[ast.expr] = []
+                var = None
+                ok = True
+                while True:
+                    body = cur.body
+                    if not (len(body) == 1 and isinstance(body[0], ast.Assign) and len(body[0].targets) == 1
+                            and isinstance(body[0].targets[0], ast.Name) and isinstance(body[0].value, (ast.Attribute, ast.Constant))):
+                        ok = False
+                        break
+                    v = body[0].targets[0].id
+                    if var is None:
+                        var = v
+                    if v != var:
+                        ok = False
+                        break
+                    arms.append((list(prev), cur.test, ast.unparse(body[0].value)))
+                    prev = prev + [cur.test]
+                    if len(cur.orelse) == 1 and isinstance(cur.orelse[0], ast.If):
+                        cur = cur.orelse[0]
+                        continue
+                    if cur.orelse:
+                        eb = cur.orelse
+                        if not (len(eb) == 1 and isinstance(eb[0], ast.Assign) and len(eb[0].targets) == 1 and isinstance(eb[0].targets[0], ast.Name)
+                                and eb[0].targets[0].id == var and isinstance(eb[0].value, (ast.Attribute, ast.Constant))):
+                            ok = False
+                            break
+                        arms.append((list(prev), None, ast.unparse(eb[0].value)))
+                    break
+                if not ok or var is None or len(arms) < 2 or len({a[2] for a in arms}) != len(arms):
+                    continue
+                # all other stores / uses of var
+                inside = {id(n) for n in ast.walk(st)}
+                stores = [n for n in ast.walk(fn) if isinstance(n, ast.Name) and n.id == var and isinstance(n.ctx, ast.Store) and id(n) not in inside]
+                if stores:
+                    continue
+                parents = {ch: p for p in ast.walk(fn) for ch in ast.iter_child_nodes(p)}
+                loads = [n for n in ast.walk(fn) if isinstance(n, ast.Name) and n.id == var and isinstance(n.ctx, ast.Load)]
+                tags = {a[2]: a for a in arms}
+                repl = {}
+                good = True
+                for n in loads:
+                    p = parents.get(n)
+                    if isinstance(p, ast.Compare) and p.left is n and len(p.ops) == 1 and isinstance(p.ops[0], (ast.Is, ast.Eq, ast.IsNot, ast.NotEq)) \
+                            and ast.unparse(p.comparators[0]) in tags:
+                        negs, test, _tag = tags[ast.unparse(p.comparators[0])]
+                        parts = [ast.UnaryOp(op=ast.Not(), operand=copy.deepcopy(x)) for x in negs] + ([copy.deepcopy(test)] if test is not None else [])
+                        cond = parts[0] if len(parts) == 1 else ast.BoolOp(op=ast.And(), values=parts)
+                        if isinstance(p.ops[0], (ast.IsNot, ast.NotEq)):
+                            cond = ast.UnaryOp(op=ast.Not(), operand=cond)
+                        repl[id(p)] = cond
+                    else:
+                        good = False
+                if not good or not repl:
+                    continue
+
+                class R(ast.NodeTransformer):
+                    def visit_Compare(self, node):
+                        if id(node) in repl:
+                            return ast.copy_location(repl[id(node)], node)
+                        self.generic_visit(node)
+                        return node
+                R().visit(fn)
+                ast.fix_missing_locations(fn)
+                return
+
+
+def _splice_dict_kwargs(fn: ast.FunctionDef) -> None:
+    """d = {<constant str keys>: ...} assigned once and used only as f(**d): written as explicit keywords."""
+    stores: Dict[str, List[ast.Assign]] = {}
+    for n in ast.walk(fn):
+        if isinstance(n, ast.Assign) and len(n.targets) == 1 and isinstance(n.targets[0], ast.Name):
+            stores.setdefault(n.targets[0].id, []).append(n)
+    parents = {ch: p for p in ast.walk(fn) for ch in ast.iter_child_nodes(p)}
+    for name, defs in stores.items():
+        if len(defs) != 1 or not isinstance(defs[0].value, ast.Dict):
+            continue
+        d = defs[0].value
+        if not d.keys or not all(isinstance(k, ast.Constant) and isinstance(k.value, str) for k in d.keys):
+            continue
+        all_stores = [n for n in ast.walk(fn) if isinstance(n, ast.Name) and n.id == name and isinstance(n.ctx, ast.Store)]
+        loads = [n for n in ast.walk(fn) if isinstance(n, ast.Name) and n.id == name and isinstance(n.ctx, ast.Load)]
+        if len(all_stores) != 1 or len(loads) != 1:
+            continue
+        kw = parents.get(loads[0])
+        call = parents.get(kw)
+        if not (isinstance(kw, ast.keyword) and kw.arg is None and isinstance(call, ast.Call)):
+            continue
+        i = call.keywords.index(kw)
+        call.keywords[i:i + 1] = [ast.keyword(arg=k.value, value=v) for k, v in zip(d.keys, d.values)]
+        for owner in ast.walk(fn):
+            for field in ("body", "orelse", "finalbody"):
+                blk = getattr(owner, field, None)
+                if isinstance(blk, list) and defs[0] in blk:
+                    blk.remove(defs[0])
+                    if not blk:
+                        blk.append(ast.Pass())
+        ast.fix_missing_locations(fn)
 
 
 def _slice_filters(fn: ast.FunctionDef) -> None:
@@ -1075,20 +1316,266 @@ def _cleanup(fn: ast.FunctionDef, records: Optional[Dict[str, List[str]]] = None
     _fission(fn)
 
 
-def flatten_module(tree: ast.Module, underscore_only: bool = False) -> Tuple[ast.Module, List[str]]:
+RE_METHODS = {"sub", "subn", "match", "search", "fullmatch", "split", "findall", "finditer"}
+
+
+def expand_compiled_regexes(tree: ast.Module) -> ast.Module:
+    """NAME = re.compile(<literal pattern>[, flags]) at module level, bound once: NAME.sub(r, s) is written re.sub(<pattern>, r, s)
+    (and likewise match/search/fullmatch/split/findall), so that rules see the pattern at the place where it is applied."""
+    tree = copy.deepcopy(tree)
+    count: Dict[str, int] = {}
+    pats: Dict[str, ast.Call] = {}
+    for st in tree.body:
+        tgt = v = None
+        if isinstance(st, ast.Assign) and len(st.targets) == 1 and isinstance(st.targets[0], ast.Name):
+            tgt, v = st.targets[0].id, st.value
+        elif isinstance(st, ast.AnnAssign) and isinstance(st.target, ast.Name) and st.value is not None:
+            tgt, v = st.target.id, st.value
+        if tgt:
+            count[tgt] = count.get(tgt, 0) + 1
+            if isinstance(v, ast.Call) and ast.unparse(v.func) == "re.compile" and v.args and isinstance(v.args[0], ast.Constant):
+                pats[tgt] = v
+    pats = {k: v for k, v in pats.items() if count[k] == 1}
+    if not pats:
+        return tree
+    for n in ast.walk(tree):
+        if isinstance(n, (ast.Global,)):
+            for g in n.names:
+                pats.pop(g, None)
+
+    class T(ast.NodeTransformer):
+        def visit_Call(self, c):
+            self.generic_visit(c)
+            f = c.func
+            if isinstance(f, ast.Attribute) and f.attr in RE_METHODS and isinstance(f.value, ast.Name) and f.value.id in pats:
+                comp = pats[f.value.id]
+                new = ast.Call(func=ast.Attribute(value=ast.Name(id="re", ctx=ast.Load()), attr=f.attr, ctx=ast.Load()),
+                               args=[copy.deepcopy(comp.args[0])] + c.args,
+                               keywords=c.keywords + ([ast.keyword(arg="flags", value=copy.deepcopy(comp.args[1]))] if len(comp.args) > 1 else [])
+                               + [copy.deepcopy(k) for k in comp.keywords])
+                return ast.copy_location(new, c)
+            return c
+    T().visit(tree)
+    ast.fix_missing_locations(tree)
+    return tree
+
+
+def joins_to_loops(fn: ast.FunctionDef, is_generator_call) -> ast.FunctionDef:
+    """`return "".join(e(v) for v in G(...))` / `x = "".join(...)` where G is a generator of the repository (decided by the
+    callback) becomes an accumulation loop `acc = ""; for v in G(...): acc += e(v)`: the loop form is the one in which a
+    generator can be followed yield by yield."""
+    hit = [False]
+
+    def rewrite(value: ast.expr):
+        if isinstance(value, ast.Call) and isinstance(value.func, ast.Attribute) and value.func.attr == "join" \
+                and isinstance(value.func.value, ast.Constant) and value.func.value.value == "" and len(value.args) == 1 \
+                and isinstance(value.args[0], (ast.GeneratorExp, ast.ListComp)) and len(value.args[0].generators) == 1:
+            g = value.args[0].generators[0]
+            if not g.ifs and isinstance(g.iter, ast.Call) and is_generator_call(g.iter):
+                acc = "__joined"
+                init = ast.Assign(targets=[ast.Name(id=acc, ctx=ast.Store())], value=ast.Constant(value=""))
+                tgt = copy.deepcopy(g.target)
+                for n in ast.walk(tgt):
+                    if isinstance(n, ast.Name):
+                        n.ctx = ast.Store()
+                loop = ast.For(target=tgt, iter=g.iter, orelse=[], type_comment=None,
+                               body=[ast.AugAssign(target=ast.Name(id=acc, ctx=ast.Store()), op=ast.Add(), value=value.args[0].elt)])
+                return [init, loop], ast.Name(id=acc, ctx=ast.Load())
+        return None
+    fn2 = copy.deepcopy(fn)
+
+    class T(ast.NodeTransformer):
+        def visit_FunctionDef(self, node):
+            if node is fn2:
+                self.generic_visit(node)
+            return node
+
+        def _do(self, node):
+            r = rewrite(node.value) if node.value is not None else None
+            if r is None:
+                return node
+            pre, name = r
+            node.value = name
+            hit[0] = True
+            out = pre + [node]
+            for st in out:
+                ast.copy_location(st, node)
+                ast.fix_missing_locations(st)
+            return out
+
+        visit_Return = _do
+        visit_Assign = _do
+    T().visit(fn2)
+    return fn2 if hit[0] else fn
+
+
+def comps_to_loops(fn: ast.FunctionDef) -> ast.FunctionDef:
+    """A copy of `fn` in which `X = [e(v) for v in IT if c]` (one generator, X a plain name) is written as
+    `X = []; for v in IT: if c: X.append(e(v))` - the form in which the evaluator can follow helper calls inside `e` path by
+    path."""
+    fn2 = copy.deepcopy(fn)
+
+    class T(ast.NodeTransformer):
+        def visit_FunctionDef(self, node):
+            if node is fn2:
+                self.generic_visit(node)
+            return node
+
+        def visit_Lambda(self, node):
+            return node
+
+        def visit_Assign(self, node):
+            if len(node.targets) == 1 and isinstance(node.targets[0], ast.Name) and isinstance(node.value, ast.ListComp) \
+                    and len(node.value.generators) == 1 and not node.value.generators[0].is_async:
+                g = node.value.generators[0]
+                x = node.targets[0].id
+                if any(isinstance(n, ast.Name) and n.id == x for n in ast.walk(node.value)):
+                    return node
+                push = ast.Expr(value=ast.Call(func=ast.Attribute(value=ast.Name(id=x, ctx=ast.Load()), attr="append", ctx=ast.Load()),
+                                               args=[node.value.elt], keywords=[]))
+                body: List[ast.stmt] = [push]
+                if g.ifs:
+                    test = g.ifs[0] if len(g.ifs) == 1 else ast.BoolOp(op=ast.And(), values=list(g.ifs))
+                    body = [ast.If(test=test, body=body, orelse=[])]
+                tgt = copy.deepcopy(g.target)
+                for n in ast.walk(tgt):
+                    if isinstance(n, ast.Name):
+                        n.ctx = ast.Store()
+                init = ast.Assign(targets=[ast.Name(id=x, ctx=ast.Store())], value=ast.List(elts=[], ctx=ast.Load()))
+                loop = ast.For(target=tgt, iter=g.iter, body=body, orelse=[], type_comment=None)
+                for st in (init, loop):
+                    ast.copy_location(st, node)
+                    ast.fix_missing_locations(st)
+                return [init, loop]
+            return node
+    T().visit(fn2)
+    return fn2
+
+
+def expand_decorators(tree: ast.Module) -> Tuple[ast.Module, List[str]]:
+    """Methods / functions decorated with a wrapper factory defined in the same module
+
+        def factory(p1, p2=...):                       def decorator(func):
+            def decorator(func):             or            @functools.wraps(func)
+                @functools.wraps(func)                      def wrapper(<params>): ...; return func(<args>)
+                def wrapper(<params>): ... func(<args>) ... return wrapper
+                return wrapper
+            return decorator
+
+    are rewritten to what runs: the decorated definition becomes the wrapper's body with the factory parameters replaced by
+    the decorator's (literal) arguments and the call of `func` redirected to the undecorated original, kept next to it under
+    the name `_undecorated__<name>`.  Returns (copy of the tree, names of the expanded decorators)."""
+    tree = copy.deepcopy(tree)
+    used: List[str] = []
+    factories: Dict[str, ast.FunctionDef] = {n.name: n for n in tree.body if isinstance(n, ast.FunctionDef)}
+
+    def wrapper_of(decorator_fn: ast.FunctionDef):
+        body = _body_wo_doc(decorator_fn)
+        if len(body) == 2 and isinstance(body[0], ast.FunctionDef) and isinstance(body[1], ast.Return) \
+                and isinstance(body[1].value, ast.Name) and body[1].value.id == body[0].name and len(decorator_fn.args.args) == 1:
+            return body[0], decorator_fn.args.args[0].arg
+        return None
+
+    def plan(dec: ast.expr):
+        """-> (wrapper FunctionDef, name of the wrapped-function parameter, {factory param: argument expr}) or None"""
+        if isinstance(dec, ast.Name) and dec.id in factories:
+            w = wrapper_of(factories[dec.id])
+            return (w[0], w[1], {}, dec.id) if w else None
+        if isinstance(dec, ast.Call) and isinstance(dec.func, ast.Name) and dec.func.id in factories:
+            fac = factories[dec.func.id]
+            body = _body_wo_doc(fac)
+            if not (len(body) == 2 and isinstance(body[0], ast.FunctionDef) and isinstance(body[1], ast.Return)
+                    and isinstance(body[1].value, ast.Name) and body[1].value.id == body[0].name):
+                return None
+            w = wrapper_of(body[0])
+            if w is None:
+                return None
+            params = [a.arg for a in fac.args.args]
+            defaults = dict(zip(params[len(params) - len(fac.args.defaults):], fac.args.defaults))
+            given: Dict[str, ast.expr] = dict(defaults)
+            if len(dec.args) > len(params) or any(isinstance(a, ast.Starred) for a in dec.args):
+                return None
+            for pn, a in zip(params, dec.args):
+                given[pn] = a
+            for k in dec.keywords:
+                if k.arg is None or k.arg not in params:
+                    return None
+                given[k.arg] = k.value
+            if set(given) != set(params) or not all(_literal_node(v) or isinstance(v, ast.Name) for v in given.values()):
+                return None
+            return w[0], w[1], given, dec.func.id
+        return None
+
+    def rewrite(owner_body: List[ast.stmt]):
+        i = 0
+        while i < len(owner_body):
+            fn = owner_body[i]
+            if isinstance(fn, ast.FunctionDef) and len(fn.decorator_list) == 1:
+                pl = plan(fn.decorator_list[0])
+                if pl is not None:
+                    wrapper, func_param, given, dname = pl
+                    is_method = bool(fn.args.args) and fn.args.args[0].arg == "self"
+                    orig = copy.deepcopy(fn)
+                    orig.decorator_list = []
+                    orig.name = "_undecorated__" + fn.name
+                    new = copy.deepcopy(wrapper)
+                    new.decorator_list = [d for d in new.decorator_list if "wraps" not in ast.unparse(d)]
+                    if new.decorator_list:
+                        i += 1
+                        continue
+                    new.name = fn.name
+                    for a in new.args.args:
+                        a.annotation = None
+                    new.returns = None
+
+                    class R(ast.NodeTransformer):
+                        def visit_Call(self, c):
+                            self.generic_visit(c)
+                            if isinstance(c.func, ast.Name) and c.func.id == func_param:
+                                if is_method and c.args and isinstance(c.args[0], ast.Name) and c.args[0].id == "self":
+                                    return ast.copy_location(ast.Call(func=ast.Attribute(value=ast.Name(id="self", ctx=ast.Load()),
+                                                                                        attr=orig.name, ctx=ast.Load()),
+                                                                      args=c.args[1:], keywords=c.keywords), c)
+                                return ast.copy_location(ast.Call(func=ast.Name(id=orig.name, ctx=ast.Load()), args=c.args,
+                                                                  keywords=c.keywords), c)
+                            return c
+                    new = R().visit(_Subst(given, {}).visit(new))
+                    new = _Fold().visit(new)
+                    ast.copy_location(new, fn)
+                    ast.fix_missing_locations(new)
+                    ast.fix_missing_locations(orig)
+                    owner_body[i:i + 1] = [orig, new]
+                    used.append(dname)
+                    i += 2
+                    continue
+            i += 1
+    rewrite(tree.body)
+    for c in tree.body:
+        if isinstance(c, ast.ClassDef):
+            rewrite(c.body)
+    return tree, sorted(set(used))
+
+
+def flatten_module(tree: ast.Module, underscore_only: bool = False,
+                   imported: Optional[Dict[str, ast.FunctionDef]] = None) -> Tuple[ast.Module, List[str]]:
     """Returns (flattened copy, names of the helpers that were inlined)."""
     global UNDERSCORE_ONLY
     UNDERSCORE_ONLY = underscore_only
     try:
-        return _flatten_module(tree)
+        return _flatten_module(tree, imported or {})
     finally:
         UNDERSCORE_ONLY = False
 
 
-def _flatten_module(tree: ast.Module) -> Tuple[ast.Module, List[str]]:
+def _flatten_module(tree: ast.Module, imported: Dict[str, ast.FunctionDef]) -> Tuple[ast.Module, List[str]]:
     tree = copy.deepcopy(tree)
     helpers = {n.name: n for n in tree.body if isinstance(n, ast.FunctionDef) and _eligible(n, False)}
-    gens = {n.name: n for n in tree.body if isinstance(n, ast.FunctionDef) and _is_private(n.name) and _generator_shape(n) is not None}
+    for iname, ifn in imported.items():
+        if iname not in helpers and _eligible(ifn, False):
+            helpers[iname] = copy.deepcopy(ifn)
+    gens = {n.name: n for n in tree.body if isinstance(n, ast.FunctionDef) and _is_private(n.name)
+            and any(isinstance(x, ast.Yield) for x in ast.walk(n))}
+    all_functions = {n.name: n for n in tree.body if isinstance(n, ast.FunctionDef) and _is_private(n.name)}
     inlined: List[str] = []
     records = _record_classes(tree)
     tables = _module_tables(tree)
@@ -1104,19 +1591,26 @@ def _flatten_module(tree: ast.Module) -> Tuple[ast.Module, List[str]]:
             if isinstance(node, ast.FunctionDef):
                 inl = _Inliner({k: v for k, v in helpers.items() if k != node.name}, {})
                 inl.generators = {k: v for k, v in gens.items() if k != node.name}
+                inl.factories = all_functions
                 node.body = inl.inline_block(node.body)
                 if inl.used:
                     _cleanup(node, records)
                     changed = True
                     inlined.extend(sorted(inl.used))
             elif isinstance(node, ast.ClassDef):
-                mh = {n.name: n for n in node.body if isinstance(n, ast.FunctionDef) and _eligible(n, True)}
+                # a helper method that another class of the module also defines may be overridden: `self.m()` is then
+                # dispatched dynamically and must not be bound statically here (the evaluator resolves it per class)
+                elsewhere = {f.name for c in tree.body if isinstance(c, ast.ClassDef) and c is not node
+                             for f in c.body if isinstance(f, ast.FunctionDef)}
+                mh = {n.name: n for n in node.body if isinstance(n, ast.FunctionDef) and _eligible(n, True) and n.name not in elsewhere}
                 for m in node.body:
                     if isinstance(m, ast.FunctionDef):
                         inl = _Inliner(helpers, {k: v for k, v in mh.items() if k != m.name})
                         inl.generators = gens
+                        inl.factories = all_functions
                         inl.method_generators = {n.name: n for n in node.body if isinstance(n, ast.FunctionDef) and n is not m
-                                                 and _is_private(n.name) and _generator_shape(n) is not None}
+                                                 and _is_private(n.name) and any(isinstance(x, ast.Yield) for x in ast.walk(n))
+                                                 and n.name not in elsewhere}
                         m.body = inl.inline_block(m.body)
                         if inl.used:
                             _cleanup(m, records)
@@ -1129,6 +1623,8 @@ def _flatten_module(tree: ast.Module) -> Tuple[ast.Module, List[str]]:
         if isinstance(node, ast.FunctionDef):
             _slice_filters(node)
             _fission(node)
+            _tag_fusion(node)
+            _splice_dict_kwargs(node)
     # drop helpers that are no longer referenced
     inlined = sorted(set(inlined))
     if inlined:
